@@ -247,6 +247,19 @@ def c14(run, tier):
     finally:
         run.harness = saved
     run.absorb(rep, VALUE_ASPECTS | {"frame", "order"})
+    # the builtin function library under concurrency: the value families of MC_Values (every string, number and comparison
+    # function with many different arguments) replayed by the race-built harness with the cases of each line evaluated by
+    # 8 goroutines at once on one shared tree, compiled expressions and bindings shared; every result is still judged
+    run.harness = race
+    run.env["VERIF_CASE_CONC"] = "8"
+    try:
+        for fam in Q(tier, ["C07t", "C07b", "C06", "C05"], ["C07t", "C07b", "C07u", "C07s", "C06", "C05", "C04n", "C04s"]):
+            cfg = run.cfg("MC_Values.cfg", {"Family": '"%s"' % fam}, "conc.%s.cfg" % fam)
+            rep = run.tlc_gen_replay("MC_Values", cfg, "conc-" + fam, timeout=Q(tier, 600, 3000), harness_args=["-workers", "2"])
+            run.absorb(rep, VALUE_ASPECTS)
+    finally:
+        run.harness = saved
+        del run.env["VERIF_CASE_CONC"]
     import glob
     races = glob.glob(racelog + ".*")
     for rf in races[:5]:
@@ -269,18 +282,18 @@ def c14(run, tier):
     traces = {}     # config -> list of event lists
     nruns = 0
 
-    def one_run(nf, n, prints, env, label, big=False):
+    def one_run(nf, n, prints, env, label, big=False, mode="-a"):
         nonlocal nruns
         d = os.path.join(fdir, "%s-%d" % (label, nruns))
         paths = cli.write_files(d, nf, prints, big)
         rel = [os.path.relpath(p, d) for p in paths]
         fmap = {r: i + 1 for i, r in enumerate(rel)}
-        ref = cli.run_cli(binary, ["-c", "1", "-a", "-x", "//a"] + rel, cwd=d)
+        ref = cli.run_cli(binary, ["-c", "1", mode, "-x", "//a"] + rel, cwd=d, timeout=300)
         tr = os.path.join(d, "hook.log")
         e = dict(env)
         e["XSEL_VERIF_TRACE"] = tr
         e["GORACE"] = "halt_on_error=0 atexit_sleep_ms=0"
-        got = cli.run_cli(binary, ["-c", str(n), "-a", "-x", "//a"] + rel, env=e, cwd=d)
+        got = cli.run_cli(binary, ["-c", str(n), mode, "-x", "//a"] + rel, env=e, cwd=d, timeout=300)
         nruns += 1
         run.evaluations += 1
         evs, gave = cli.parse_hook_trace(tr, fmap)
@@ -296,8 +309,8 @@ def c14(run, tier):
             keep = os.path.join(run.root, "replays", run.pid)
             os.makedirs(keep, exist_ok=True)
             dst = os.path.join(keep, "cli-%s-%d.json" % (label, nruns))
-            json.dump({"fam": "C14.cli", "nf": nf, "n": n, "prints": sorted(prints), "env": {k: v for k, v in env.items()}, "big": big, "why": detail}, open(dst, "w"))
-            run.violations.append({"aspect": a, "fam": "C14.cli", "text": "xsel -c %d -a -x //a %s" % (n, " ".join(rel)), "detail": detail, "replay": dst})
+            json.dump({"fam": "C14.cli", "nf": nf, "n": n, "prints": sorted(prints), "env": {k: v for k, v in env.items()}, "big": big, "mode": mode, "why": detail}, open(dst, "w"))
+            run.violations.append({"aspect": a, "fam": "C14.cli", "text": "xsel -c %d %s -x //a %s" % (n, mode, " ".join(rel)), "detail": detail, "replay": dst})
             run.viol_total = getattr(run, "viol_total", 0) + 1
         traces.setdefault((nf, n, n > 1, tuple(sorted(prints))), []).append(evs)
         return evs, gave
@@ -340,6 +353,9 @@ def c14(run, tier):
     # (c) many small files: contention on stdout and on the shared bindings
     for i in range(Q(tier, 3, 20)):
         one_run(Q(tier, 150, 400), 8, set(range(1, Q(tier, 150, 400) + 1)), {"XSEL_VERIF_YIELD": str(run.seed * 77 + i)}, "many")
+    # (d) large output blocks (several hundred KiB per file, -a and -m): a block must stay contiguous and intact whatever its size
+    for i in range(Q(tier, 4, 16)):
+        one_run(6, 4, {1, 2, 3, 4, 5, 6}, {"XSEL_VERIF_YIELD": str(run.seed * 31 + i)}, "large", big=Q(tier, 4000, 12000), mode=("-a" if i % 2 == 0 else "-m"))
     # all hook traces are judged by Trace_CliPool, one TLC run per configuration
     for (nf, n, conc, prints), lst in traces.items():
         import hashlib
@@ -384,9 +400,10 @@ def c14_replay(run, path):
         paths = cli.write_files(d, nf, prints, rc.get("big", False))
         rel = [os.path.relpath(p, d) for p in paths]
         fmap = {r: k + 1 for k, r in enumerate(rel)}
-        ref = cli.run_cli(binary, ["-c", "1", "-a", "-x", "//a"] + rel, cwd=d)
+        mode = rc.get("mode", "-a")
+        ref = cli.run_cli(binary, ["-c", "1", mode, "-x", "//a"] + rel, cwd=d, timeout=300)
         tr = os.path.join(d, "hook.log")
-        got = cli.run_cli(binary, ["-c", str(n), "-a", "-x", "//a"] + rel, env={"XSEL_VERIF_TRACE": tr, "XSEL_VERIF_YIELD": str(i)}, cwd=d)
+        got = cli.run_cli(binary, ["-c", str(n), mode, "-x", "//a"] + rel, env={"XSEL_VERIF_TRACE": tr, "XSEL_VERIF_YIELD": str(i)}, cwd=d, timeout=300)
         why = cli.compare_blocks(ref.stdout, got.stdout)
         if why or "DATA RACE" in got.stderr:
             print("REPRODUCED:", why or "data race")
